@@ -33,6 +33,12 @@ def QuiescentWFOld (s0 : St) (programs : List (List Op)) : Prop :=
   ∀ sched, allFinished (runSchedWith Op.progOld programs sched s0).1 = true →
     WF (runSchedWith Op.progOld programs sched s0).2.kv
 
+/-- the same statement about the operations as they were between 81b9c5b4 and e23bf6c3
+    (`Op.progNodeFirst`: `create_node` stores the node record before its two empty lists) -/
+def QuiescentWFNodeFirst (s0 : St) (programs : List (List Op)) : Prop :=
+  ∀ sched, allFinished (runSchedWith Op.progNodeFirst programs sched s0).1 = true →
+    WF (runSchedWith Op.progNodeFirst programs sched s0).2.kv
+
 /-! ### generic graph-level lemmas (in terms of the four views of a store) -/
 
 theorem wf_add_edge {m m' : KV} {eid a b : Nat} {d : Bool} {ty v : Nat}
